@@ -98,6 +98,7 @@ class Sim:
         self.pumping = False
         self.snap: list[int] = []
         self.req: list[int] = []
+        self.unread_used = False     # unread_data() grows the buffer without the network: no back-pressure owed for it
 
     # ---- producer side --------------------------------------------------
     def _deliver(self, item):
@@ -377,6 +378,7 @@ class Sim:
                 with warnings.catch_warnings():
                     warnings.simplefilter("ignore")
                     r.unread_data(data)
+                    self.unread_used = True
                 self.pending[:0] = data
                 self.bounds = [b + len(data) for b in self.bounds]
                 self.req = [b + len(data) for b in self.req]
@@ -433,6 +435,10 @@ class Sim:
             ) and op not in ("iterchunked2",):
                 self.problem("flow:not-resumed-below-low-water",
                              f"transport paused with size {r._size} < low {r._low_water}, splits {nsplits}")
+        # back-pressure holds at rest, not only right after the feed: a resume whose held-back data refills the
+        # buffer above the high-water mark must leave the transport paused
+        if not self.eof and not self.exc and not self.unread_used and r._size > r._high_water and not self.tr.paused:
+            self.problem("flow:reading-above-high-water", f"transport reading with size {r._size} > high {r._high_water} after {op}")
         if self.tr.paused != self.proto._reading_paused and not self.tr.paused:
             # protocol believes paused while transport reads: harmless direction is
             # transport paused while protocol thinks not; flag both as accounting bugs
@@ -453,7 +459,7 @@ class Sim:
             self.proto._reading_paused, self.tr.paused,
             self.task_op, held, tuple(self.stash), self.eof_sent, self.chunking,
             tuple(self.bounds), tuple(self.req), self.iter_chunked is not None,
-            r.total_bytes - r._cursor - r._size - len(held), r._buffer_offset < 0,
+            r.total_bytes - r._cursor - r._size - len(held), r._buffer_offset < 0, self.unread_used,
         )
 
     def close(self):
